@@ -131,6 +131,7 @@ def explore_config(case):
         if all(t <= math.pi - 0.05 for t in angs) and gutil.elem_excluded(L, e["p"]) is None:
             selg.append(e["p"])
     numapi.check_group(res, B, alpha.reduced(selg, 24 if not is_dp else 10), [], case, "config", ("log",), tol=1e-9)
+    numapi.check_forms(res, B, alpha.reduced(selg, 24 if not is_dp else 10), [], case, "config", ("log",), tol=1e-9)
     # ---- log(exp x) = x ---------------------------------------------------------------------------
     xs = alpha.elements(AL, seed, small=is_dp)
     if is_dp:
